@@ -663,3 +663,9 @@ from vf.registry import alias  # noqa: E402
 
 alias("C01.every_row_is_returned_exactly_once", "C05.exactly_once_in_order", "rows of a result reach the caller once each, in order, whatever mix of fetchone / fetchmany / fetchall / arraysize is used")
 alias("C01.rows_keep_one_value_per_column", "C05.full_width_any_names")
+
+# ------------------------------------------------------------------ SQL literals written through execute_string (shared with C16)
+import obligations.C16  # noqa: E402,F401
+
+alias("C01.literals_survive_being_rerendered", "C16.rerendered_literal_round_trip", "a string literal of a script statement is re-rendered before it is executed: any text (backslashes, quotes, escapes) must reach the engine as the same value")
+alias("C01.script_statements_store_what_single_statements_store", "C16.execute_string_equals_one_by_one", "values written by a statement of an execute_string script equal those written by executing the statement alone")
